@@ -130,15 +130,15 @@ func main() {
 		},
 	}, func(c *mon.Ctx) {
 		thorough := !c.Quick()
-		c.Cases("mixed", c.N(1200, 40000), func(k *mon.Case) { runScenario(k, lip14sim.Options{Thorough: thorough}) })
+		c.Cases("mixed", c.N(5000, 40000), func(k *mon.Case) { runScenario(k, lip14sim.Options{Thorough: thorough}) })
 		for _, t := range []string{"split", "lone-finisher", "vote-and-leave", "long-split", "random"} {
 			t := t
-			c.Cases("template/"+t, c.N(300, 8000), func(k *mon.Case) { runScenario(k, lip14sim.Options{Thorough: thorough, Template: t}) })
+			c.Cases("template/"+t, c.N(1200, 8000), func(k *mon.Case) { runScenario(k, lip14sim.Options{Thorough: thorough, Template: t}) })
 		}
-		c.Cases("low-threshold", c.N(300, 8000), func(k *mon.Case) {
+		c.Cases("low-threshold", c.N(1200, 8000), func(k *mon.Case) {
 			runScenario(k, lip14sim.Options{Thorough: thorough, Family: "low-precommit-threshold-no-byz"})
 		})
-		c.Cases("low-threshold/vote-and-leave", c.N(600, 12000), func(k *mon.Case) {
+		c.Cases("low-threshold/vote-and-leave", c.N(2400, 12000), func(k *mon.Case) {
 			runScenario(k, lip14sim.Options{Thorough: thorough, Family: "low-precommit-threshold-no-byz", Template: "vote-and-leave"})
 		})
 	})
